@@ -1,6 +1,7 @@
 package adapter
 
 import (
+	"fmt"
 	"time"
 
 	"github.com/karagenc/socket.io-go/internal/sync"
@@ -167,15 +168,25 @@ func (a *sessionAwareAdapter) Broadcast(header *parser.PacketHeader, v []any, op
 		id := a.yeaster.Yeast()
 		v = append(v, id)
 
+		// Encode once, here: the log keeps the frames that are broadcast.
+		buffers, err := a.parser.Encode(header, &v)
+		if err != nil {
+			a.mu.Unlock()
+			panic(fmt.Errorf("sio: %w", err))
+		}
+
 		packet := &PersistedPacket{
 			Header:    header,
 			ID:        id,
 			Opts:      opts,
 			EmittedAt: time.Now(),
 			Data:      v,
+			Buffers:   buffers,
 		}
 		a.packets = append(a.packets, packet)
 		a.mu.Unlock()
+		a.inMemoryAdapter.broadcastBuffers(buffers, opts)
+		return
 	}
 	a.inMemoryAdapter.Broadcast(header, v, opts)
 }
